@@ -5,6 +5,7 @@ import re
 from vx.unit import Unit, spec_text
 from vx import weave
 from vx.rs import AnchorLost
+from vx.unit import Unit
 
 W = 1 << 64
 FIELDS = {'Fq': dict(mod='fq', repr='FqRepr', n=6), 'Fr': dict(mod='fr', repr='FrRepr', n=4)}
@@ -26,6 +27,7 @@ def limbs_of(src, mod, name):
 
 def build(src, workdir):
     u = Unit('mont', src)
+    u.rlimit = 200          # the long straight-line bodies (72 limb operations in Fq::mont_reduce) sit close to the default budget
     u.add("use vstd::arithmetic::div_mod::*;\nuse vstd::arithmetic::mul::*;")
     u.add(spec_text('mont.vrs'))
     for F, info in FIELDS.items():
@@ -174,6 +176,80 @@ impl {F} {{""")
         return b
     u.add(u.real_fn(mod, FH, 'inverse', "    requires lv(self.0) < QM()\n    ensures match ret { Some(y) => lv(y.0) < QM() && (mv(y) * mv(*self)) % QM() == 1 && mv(*self) != 0, None => mv(*self) == 0 }",
                     ret='ret', vis='pub', attrs='#[verifier::exec_allows_no_decreases_clause]\n', body_edit=inv_edit))
+    # Field::pow: text from the ff registry source (generic default method), written out at this field with array exponents (R6)
+    from units.ffdep import ff_source
+    from vx import driver
+    import os
+    ffs, ver = ff_source(os.path.join(driver.REPO, 'Cargo.lock'))
+    uu = Unit('ffpow', ffs)
+    it_spec = dict(invariant=("        invariant {it}.n <= 64 * N, {it}.t == exp, lv(self.0) < QM(), lv(res.0) < QM(), QM() > 1,\n"
+                              "            mv(res) == pw(mv(*self), {it}.val() / pow2({it}.n as nat), QM()), found_one == ({it}.val() / pow2({it}.n as nat) > 0), v0 == {it}.val(),\n"
+                              "            !found_one ==> mv(res) == 1\n        ensures {it}.n == 0\n        decreases {it}.n"),
+                   ghost_before="proof { lemma_qodd(); lemma_consts(); lemma_limbs_bound(exp@); lemma_small_div_m(limbs_val(exp@), pow2((64 * N) as nat)); lemma_pw_zero(mv(*self), QM()); } let ghost v0 = {it}.val();",
+                   ghost_arm="proof { lemma_small_mod(1, QM() as nat); assert(1int * 1 == 1); }")
+
+    def pow_edit(b):
+        b = b.replace('BitIterator::new(exp)', 'BitIterator::<N>::new(exp)').replace('{', '{ hide(mv);', 1)
+        b = weave.rewrite_for_iter(b, uu.rewrites, [it_spec])
+        for k, v in uu.rewrites.items():
+            u.rewrites[k] = u.rewrites.get(k, 0) + v
+        # at the head of the arm: the prefix doubles and takes the bit in; at its end: the power follows
+        b = re.sub(r'Some\(i\) => \{', 'Some(i) => { proof { lemma_div_step(v0, (it1.n + 1) as nat); lemma_pw_step(mv(*self), v0 / pow2((it1.n + 1) as nat), i, QM()); } let ghost r_in = res;', b, count=1)
+        return b
+    sig, body = uu.slice_fn('', 're:pub trait Field:', 'pow')
+    t = uu.real_fn('', 're:pub trait Field:', 'pow', "    requires lv(self.0) < QM()\n    ensures lv(ret.0) < QM(), mv(ret) == pw(mv(*self), limbs_val(exp@), QM())",
+                   ret='ret', vis='pub', body_edit=pow_edit, tail="proof { assert(pow2(0) == 1); }",
+                   sig_edit=lambda sg: re.sub(r'<S:\s*AsRef<\[u64\]>>', '<const N: usize>', sg).replace('exp: S', 'exp: [u64; N]'))
+    u.functions.append(f"ff-zeroize-{ver}|trait Field|pow@{F}")
+    u.add(t)
+    SH = f're:impl\\s+::ff::SqrtField\\s+for\\s+{F}\\b'
+    half = (q - 1) // 2
+
+    def arr_fact(b, which, value):
+        """after the `which`-th call of self.pow([lits]) state the value of the literal exponent (closed term, by(compute))"""
+        ms = list(re.finditer(r'self\.pow\(\[([^\]]*)\]\);', b))
+        if len(ms) <= which:
+            raise AnchorLost('pow call with a literal exponent not found')
+        m = ms[which]
+        lits = ', '.join(x.strip() for x in m.group(1).split(','))
+        fact = (f" proof {{ let e_ = [{lits}]; assert(e_@ =~= seq![{lits}]); assert(limbs_val(seq![{lits}]) == {hex(value)}nat) by(compute); }} ")
+        return b[:m.end()] + fact + b[m.end():]
+
+    def leg_edit(b):
+        b = b.replace('::ff::LegendreSymbol', 'LegendreSymbol')
+        n = b.count('s == Self::zero()') + b.count('s == Self::one()')
+        if n != 2:
+            raise AnchorLost('legendre: comparisons not found')
+        u.rewrites['R16'] = u.rewrites.get('R16', 0) + 2
+        b = b.replace('s == Self::zero()', 's.eq(&Self::zero())').replace('s == Self::one()', 's.eq(&Self::one())')
+        return arr_fact(b, 0, half)
+    u.add(u.real_fn(mod, SH, 'legendre', f"    requires lv(self.0) < QM()\n    ensures ret == leg_of(pw(mv(*self), {hex(half)}nat, QM()))", ret='ret', vis='pub',
+                    body_edit=leg_edit, sig_edit=lambda sg: sg.replace('::ff::LegendreSymbol', 'LegendreSymbol')))
+    if q % 4 == 3:
+        e1 = (q - 3) // 4
+
+        def sqrt_edit(b):
+            m = re.search(r'a0\.0 ==\s*(' + R + r'\(\[[^\]]*\]\))', b)
+            if not m:
+                raise AnchorLost('sqrt: comparison with the representation of -1 not found')
+            u.rewrites['R16'] = u.rewrites.get('R16', 0) + 1
+            neg1 = m.group(1)
+            b = b[:m.start()] + f"a0.0.eq(&{neg1})" + b[m.end():]
+            b = arr_fact(b, 0, e1)
+            # a0 = a1^2 x = x^((q-1)/2);  y = a1 x, y^2 = a0 x
+            b = b.replace('a0.mul_assign(self);', f"""a0.mul_assign(self); proof {{ let x = mv(*self); lemma_qodd(); lemma_consts();
+                lemma_pw_add(x, {hex(e1)}nat, {hex(e1)}nat, QM()); lemma_pw_add(x, {hex(2 * e1)}nat, 1, QM()); lemma_pw_one(x, QM());
+                reveal(lv); assert(lv({neg1}) < QM() && (lv({neg1}) * RINV()) % QM() == QM() - 1) by(compute);
+                lemma_lv_range(a0.0);
+                if mv(a0) == QM() - 1 {{ lemma_mv_inj(lv(a0.0), lv({neg1}), QM(), WN(), RINV()); }} }} let ghost t0 = mv(a0); let ghost a1_in = a1;""", 1)
+            b = b.replace('Some(a1)', f"""proof {{ let x = mv(*self); lemma_sqrt_sq(mv(a1_in), x, t0, mv(a1), QM()); }} Some(a1)""", 1)
+            return b
+        u.add(u.real_fn(mod, SH, 'sqrt', f"""    requires lv(self.0) < QM()
+    ensures match ret {{
+        // None exactly when x^((q-1)/2) == -1; otherwise y with y^2 == x * x^((q-1)/2)  (Euler's criterion, A8, turns this into `y^2 == x` resp. `x is not a square`)
+        None => pw(mv(*self), {hex(half)}nat, QM()) == QM() - 1,
+        Some(y) => lv(y.0) < QM() && pw(mv(*self), {hex(half)}nat, QM()) != QM() - 1 && (mv(y) * mv(y)) % QM() == (pw(mv(*self), {hex(half)}nat, QM()) * mv(*self)) % QM(),
+    }}""", ret='ret', vis='pub', body_edit=sqrt_edit))
     u.add(u.real_fn(mod, PH, 'into_repr', "    requires lv(self.0) < QM()\n    ensures lv(ret) == mv(*self), lv(ret) < QM()", ret='ret', vis='pub',
                     body_edit=lambda b: b.replace('{', '{ ' + pre2 + ' proof { reveal(lv); }', 1).replace('r.0\n', 'proof { lemma_into_repr(lv(r.0), lv(self.0), QM(), WN(), RINV()); } r.0\n', 1)))
     u.add(u.real_fn(mod, PH, 'from_repr', "    ensures (lv(r) < QM()) == ret.is_ok(), ret.is_ok() ==> mv(ret.unwrap()) == lv(r) && lv(ret.unwrap().0) < QM()", ret='ret', vis='pub',
